@@ -92,6 +92,16 @@ theorem C15_headline_rfc_constructor (e : Env) (s : Str) (u : Url) :
       (u.path = [] ∨ ∃ r, u.path = 47 :: r) :=
   C15_entry_encodeUrl_rfc e s u
 
+/-- … for with_path (exact since fix 7cae68c, which roots the argument BEFORE `normalize_path` runs): with `p` the
+    quoted argument, the stored path is empty for an empty `p` and otherwise IS remove_dot_segments of the rooted
+    argument (`rooted p`: `p` if it starts with '/', "/" ++ p if not).  Shape-by-shape form and the former
+    counterexamples: `C15_with_path_rfc`, `C15_with_path_rfc_now_exact` (C15More.lean). -/
+theorem C15_headline_rfc_with_path (e : Env) (u : Url) (path : Str) (kq kf : Bool) :
+    u.netloc ≠ [] →
+    (withPath e u path false kq kf).path =
+      if q e Gen.PATH_QUOTER path = [] then [] else Rfc.removeDotSegments (rooted (q e Gen.PATH_QUOTER path)) :=
+  C15_entry_withPath_rfc e u path kq kf
+
 /-- … for join ("or merged"): the path of the relative branch is remove_dot_segments of the §5.2.3 target path,
     whenever that is rooted or free of '.' (C14: `JoinLemmas.joinPath_rfc`) -/
 theorem C15_headline_rfc_join (base ref : Url)
@@ -153,13 +163,16 @@ GAPS:
     joinpath the QUOTER (non-requoting) turns a supplied "%2E" into "%252E", which is not a dot segment:
     no theorem either.
  2. "equals RFC 3986 5.2.4 remove_dot_segments applied to the rooted path that was supplied or merged" is
-    proved for: the algorithm on rooted input (C15_headline_rfc), the constructor, and join's relative
-    branch.  NOT stated per entry point for build (follows from C15_rfc since build rejects a rootless
-    path under an authority — composition not written), with_path (the argument is normalised BEFORE
-    the leading '/' is added, so a rootless "../a" is normalised as a relative path and then rooted: this
-    is not remove_dot_segments("/../a") by construction; both give "/a" on this input, agreement in
-    general is not proved), and / + joinpath
-    (`normalizePathSegments` on the segment list; no RFC statement at all).
+    proved for: the algorithm on rooted input (C15_headline_rfc), the constructor, join's relative
+    branch, and with_path (C15_headline_rfc_with_path — EXACT since fix 7cae68c: the argument is now rooted
+    first, "/" + path for a rootless one, and normalize_path runs on the rooted path, so the stored path is
+    remove_dot_segments of the rooted argument for every non-empty argument; the old code normalised a rootless
+    argument as a RELATIVE path and rooted it afterwards, which lost a segment when the RFC result was "/" or
+    started with "//" — with_path("a/..//b") stored "/b", now "//b": C15_with_path_rfc_now_exact in
+    C15More.lean).  NOT stated per entry point HERE for build (follows from C15_rfc since build rejects a
+    rootless path under an authority; written out as C15_build_rfc in C15More.lean) and / + joinpath
+    (`normalizePathSegments` on the segment list; C15_make_child_rfc in C15More.lean states it with its exact
+    deviation — a ".." climbing above the root — which remains: pinned by a test, recorded as a known finding).
  3. "URLs without an authority keep their dot segments verbatim": proved for the constructor and (new)
     with_path.  Not proved for build (true by inspection: normalisation only under `netloc ≠ []`) and for
     / + joinpath.  It is FALSE for join, by design (RFC 5.2 removes dot segments when resolving, with or
